@@ -25,7 +25,7 @@ package sample
 //@   requires rand != nil && n != nil
 //@   modifies hstate(rand)
 //@   allocates
-//@   ensures result != nil
+//@   ensures result != nil && fresh(result)
 
 //@ func UnitModN
 //@   nopanic[C05]
